@@ -618,7 +618,11 @@ class SpecArray(object):
         fp = self.fp(smooth=smooth)
         alpha_pm = 0.3125 * self.hs() ** 2 * fp**4
         epm_fp = alpha_pm * fp**-5 * 0.2865048
-        gamma = self.oned().max(dim=attrs.FREQNAME) / epm_fp
+        # Energy density at the spectral peak (the largest value may sit on an edge bin)
+        ef = self.oned()
+        ifreq = xr.DataArray(np.arange(ef[attrs.FREQNAME].size), dims=(attrs.FREQNAME,))
+        epeak = ef.where(ifreq == self._peak(ef)).max(dim=attrs.FREQNAME)
+        gamma = epeak / epm_fp
         if scaled:
             # polynomial approximation for gamma
             p = [0.0378375, -0.13543292, 0.64087366, 0.32524949, 0.12974958]
